@@ -636,7 +636,7 @@ func runCase(self string, c Case) result {
 			err = doOp(ndb, c.Ops[n-1], roots)
 			if k := stepsAt(p); c.Backend == "badger" && k >= 0 {
 				retryObs := observe(ndb, roots)
-				res.coq = append(res.coq, fmt.Sprintf("((%s, %s, %d%%nat, %s), (%s, %s, %s))", coqout.List(coqOps), "("+coqLast+")", k,
+				res.coq = append(res.coq, fmt.Sprintf("(in_c (%s, %s, %d%%nat, %s), out_c (%s, %s, %s))", coqout.List(coqOps), "("+coqLast+")", k,
 					cr.coqKnown(roots, order), cr.coqObs(crash, roots, order), eName(err), cr.coqObs(retryObs, roots, order)))
 			}
 			already := err != nil && (errors.Is(err, api.ErrAlreadyFinalized) || errors.Is(err, api.ErrNotEarliest))
@@ -809,7 +809,7 @@ func main() {
 		sum.Count("hook", "verif tag missing")
 	}
 	total := 0
-	wb := coqout.NewWriter(*out, "From Verif Require Import Lib.Base NodeDB.Spec NodeDB.Badger NodeDB.Crash.\n", "crash_case", "crash_eqb", 10)
+	wb := coqout.NewWriter(*out, "From Verif Require Import Lib.Base NodeDB.Spec NodeDB.Badger NodeDB.Crash NodeDB.Multipart.\n", "any_case", "any_eqb", 10)
 	for _, c := range cases {
 		var res result
 		if c.Restore != nil {
